@@ -199,6 +199,66 @@ def finish(ctx, wall, write=True):
 
 
 # ------------------------------------------------------------------------------------------
+def std_e2(ctx, module, consts, tag, pspec, wname, tspec=None, tconsts=None, pairs=0, pair_op=None, reps=1, max_alt=50,
+           label=None, sample=None, pconsts=None, gen_workers=1, constraint=None):
+    """Generic E2: generate every transition of `module` with TLC, replay in the code, judge, M-validate pairs."""
+    w = ctx.sub(wname)
+    gen, st = vlib.generate(module, consts, w, "gen.out", workers=gen_workers, constraint=constraint)
+    pf, h, mm = [os.path.join(w, x) for x in ("p.ndjson", "hist.ndjson", "m.ndjson")]
+    args = ["replay", tag, "--gen", gen, "--out", pf, "--hist", h, "--reps", str(reps), "--max-alt", str(max_alt), "--seed", str(ctx.seed)]
+    if pairs and pair_op:
+        args += ["--mout", mm, "--pairs", str(pairs), "--pair-op", pair_op]
+    stats = vlib.vh(args, w)
+    os.remove(gen)
+    if stats.get("missing"):
+        raise ToolError("replay could not reach %d emitted transitions" % stats["missing"])
+    ctx.e2_transitions += stats["transitions"] + stats["pairs"]
+    ctx.executed += stats["executed"] + stats["alt_executed"] + stats["pairs"]
+    ctx.drift += stats["drift"]
+    ctx.drift_notes += stats.get("first_drift", [])
+    ctx.add_tags(stats.get("tags"), stats.get("tagged_distinct"))
+    g = {"spec_states": st["distinct"], "materialised_as_real_objects": stats["states"], "second_representatives": stats["alt_states"], "pairs": stats["pairs"]}
+    g.update(label or {})
+    ctx.extra.setdefault("state_graphs", []).append(g)
+    handle_hang(ctx, stats, pf, tag, pspec, hist=h)
+    n, rej = vlib.adjudicate(pspec, pf, w, constants=pconsts)
+    ctx.judged += n
+    add_rejects(ctx, rej, pf, tag, pspec, hist=h, pconsts=pconsts)
+    sample_records(ctx, pf, 1, sample)
+    if stats["pairs"] and tspec:
+        nm, drift = vlib.mvalidate(tspec, tconsts, mm, w)
+        ctx.mvalidated += nm
+        ctx.drift += len(drift)
+        if drift:
+            ctx.drift_notes.append({"pairs_not_reproduced_by_spec": drift[:5]})
+    return stats
+
+
+def std_e3(ctx, tag, pspec, wname, drive_tag=None, drive_args=(), sample=None, pconsts=None, tspec=None, tconsts=None):
+    """Generic E3: the harness' driver writes scenarios, the scenario runner executes them, TLC judges."""
+    w = ctx.sub(wname)
+    scf = os.path.join(w, "scenarios.ndjson")
+    vlib.vh(["drive", drive_tag or tag, "--out", scf, "--seed", str(ctx.seed)] + list(drive_args), w)
+    p = os.path.join(w, "p.ndjson")
+    m = os.path.join(w, "m.ndjson")
+    args = ["scenario", tag, "--in", scf, "--out", p]
+    if tspec:
+        args += ["--mout", m]
+    stats = vlib.vh(args, w)
+    ctx.e3_calls += stats["calls"]
+    ctx.executed += stats["calls"]
+    handle_hang(ctx, stats, p, tag, pspec)
+    n, rej = vlib.adjudicate(pspec, p, w, constants=pconsts)
+    ctx.judged += n
+    add_rejects(ctx, rej, p, tag, pspec, scenarios=scf, pconsts=pconsts)
+    sample_records(ctx, p, 1, sample)
+    if tspec:
+        nm, drift = vlib.mvalidate(tspec, tconsts, m, w)
+        ctx.mvalidated += nm
+        ctx.drift += len(drift)
+    return stats
+
+
 # Quotient filter
 def qf_e1(ctx, shapes, union_shapes=(), alg_shapes=()):
     for (q, r) in shapes:
@@ -603,6 +663,46 @@ def run_C20(ctx):
     hll_e3(ctx, 45 if ctx.quick else 900)
 
 
+# LossyCounter
+def run_lossy(ctx):
+    shapes = [(1, 3, 7), (2, 3, 9), (3, 3, 9)] if ctx.quick else [(1, 3, 8), (2, 4, 10), (3, 4, 11), (4, 4, 12), (5, 3, 13)]
+    for (w, ne, nmax) in shapes:
+        c = {"Width": w, "NE": ne, "NMax": nmax, "D": 12, "EMIT": "FALSE"}
+        ctx.e1.append(vlib.model_check("MC_Lossy", c, ["NoMiss", "NoIntruder", "TableBound", "Sandwich", "NCount"], ctx.sub("e1")))
+    gshapes = [(1, 3, 6), (2, 3, 8), (3, 3, 8)] if ctx.quick else [(1, 3, 8), (2, 4, 10), (3, 4, 10), (4, 4, 11)]
+    for (w, ne, nmax) in gshapes:
+        c = {"Width": w, "NE": ne, "NMax": nmax, "D": 12, "EMIT": "TRUE"}
+        std_e2(ctx, "MC_Lossy", c, "lc", "P_Lossy", "lc_%d_%d" % (w, ne), reps=1, max_alt=40, sample='"prunes"',
+               label={"structure": "LossyCounter", "width": w, "symbols": ne, "max_stream": nmax})
+    std_e3(ctx, "lc", "P_Lossy", "lc_e3", drive_args=["--scenarios", "30" if ctx.quick else "400", "--max-n", "3000" if ctx.quick else "40000"],
+           sample='"tracked"')
+    if not ctx.quick:
+        apalache_inductive(ctx, "LossyInd", ["IndInv"], "Prop")
+
+
+def apalache_inductive(ctx, module, indinv, prop):
+    """Thorough-tier extra: unbounded-history safety by an inductive invariant under Apalache
+    (Init => IndInv; IndInv /\ Next => IndInv'; IndInv => Prop).  A failure to *run* is a tool note, not a verdict."""
+    w = ctx.sub("apalache")
+    src = os.path.join(vlib.SPEC, "apalache", module + ".tla")
+    res = []
+    runs = [("init", ["--init=Init", "--inv=IndInv", "--length=0"]),
+            ("step", ["--init=IndInv", "--inv=IndInv", "--length=1"]),
+            ("implies", ["--init=IndInv", "--inv=" + prop, "--length=0"])]
+    for name, a in runs:
+        try:
+            p = vlib.sh(["timeout", "900", "apalache-mc", "check", "--out-dir=" + os.path.join(w, "out"), "--run-dir=" + os.path.join(w, "run_" + name)] + a + [src],
+                        cwd=w, check=False, timeout=1000)
+            ok = "The outcome is: NoError" in p.stdout
+            res.append({"obligation": name, "ok": ok})
+            log("[apalache] %s %s: %s" % (module, name, "NoError" if ok else "NOT discharged"))
+        except Exception as e:
+            res.append({"obligation": name, "ok": False, "error": str(e)[:200]})
+    ctx.extra.setdefault("apalache_inductive", []).append({"module": module, "obligations": res})
+    if not all(r["ok"] for r in res):
+        ctx.notes.append("Apalache inductive check for %s not fully discharged (extra, not a verdict): %s" % (module, res))
+
+
 def handle_hang(ctx, stats, records, tag, pspec, hist=None):
     for h in stats.get("hang", []):
         ctx.rejects.append({"tid": h.get("tid", 0), "clause": PROPS[ctx.pid].get("hang_clause", ctx.pid + ".total: a call did not return (hang)"),
@@ -649,6 +749,11 @@ PROPS = {
                     "rendered as JSON and fed to serde_json; accepted sketches are exercised (count, add_hashed(0), add_hashed(MAX), add, merge) under catch_unwind; "
                     "round trips of sketches from E3 scenarios on all b; non-trivial = invalid documents and valid ones with random/maximal register bytes",
             "assumptions": ["serde_json as the concrete format", "TLC and the TLA+ P-spec P_HLLSerde judge every outcome"]},
+    "C09": {"run": run_lossy, "level": "model_checking",
+            "rule": "E1: every stream over 3-4 symbols up to the listed length for widths 1..5, every prefix, thresholds on twelfths; E2: every transition replayed; "
+                    "E3: streams to 4*10^4 with widths to 500, epsilons 3/10, 1/3, 2/7 ..., boundary-straddling adversarial streams, recorded at window boundaries +-1 and every 97th prefix; "
+                    "non-trivial = tagged (window-end prune removes entries, element re-enters after being pruned, boundary that keeps everything)",
+            "assumptions": ["TLC and the TLA+ P-spec P_Lossy judge every executed call", "thresholds are taken on twelfths and epsilons on small rationals so that float ties are exact ties"]},
     "C12": {"run": lambda ctx: (run_ck(ctx), run_C13(ctx)), "level": "model_checking", "rule": CK_RULE + "; quotient filter as C13", "assumptions": CK_ASSUME},
     "C13": {"run": run_C13, "level": "model_checking",
             "rule": "E1: every reachable state of the quotient-filter M-spec for the listed (q,r); E2: every emitted transition executed "
